@@ -46,6 +46,11 @@ def dump_mir():
 class Fn:
     def __init__(self, header, name, params, body):
         self.header, self.name, self.params = header, name, params
+        self.param_types = {}
+        for prm in split_top(params):
+            if ':' in prm:
+                n, t = prm.split(':', 1)
+                self.param_types[n.strip()] = t.strip()
         self.debug = {}          # source name -> place text
         self.blocks = {}         # bb -> [lines]
         self.cleanup = set()
@@ -128,7 +133,7 @@ class Call:
         return f'<call {self.callee}#{self.seq}>'
 
 
-INT_TYPES = ('i8', 'i16', 'i32', 'i64', 'isize', 'u8', 'u16', 'u32', 'u64', 'usize', 'i128', 'u128')
+INT_TYPES = ('i8', 'i16', 'i32', 'i64', 'isize', 'u8', 'u16', 'u32', 'u64', 'usize', 'i128', 'u128', 'char')
 
 
 def split_top(s, sep=','):
@@ -213,6 +218,7 @@ class Path:
     def fork(self):
         p = Path()
         p.pc, p.env, p.calls, p.trace = list(self.pc), dict(self.env), list(self.calls), list(self.trace)
+        p.heap = dict(getattr(self, 'heap', {}))
         return p
 
 
@@ -223,7 +229,8 @@ class Interp:
         self.memo = {}
         self.seq = 0
         self.arg_values = arg_values or {}
-        self.call_model = call_model       # optional: (callee, args) -> value or None
+        self.call_model = call_model       # optional: (call, interp[, path]) -> value or None
+        self.store_model = None            # optional: (place text, value, interp, path)
         self.paths = []
 
     # ---- symbolic leaves -------------------------------------------------------------------------
@@ -258,7 +265,7 @@ class Interp:
                 return p.env[t]
             if t in self.arg_values:
                 return self.arg_values[t]
-            return self.leaf(t, 'opaque')
+            return self.leaf(t, self.fn.param_types.get(t, 'opaque'))
         if t.startswith('(*') and t.endswith(')'):
             inner = self.place(t[2:-1], p)
             if isinstance(inner, Ref):
@@ -310,7 +317,7 @@ class Interp:
         t = re.sub(r'^(no_retag )?(copy|move) ', '', t)
         if t.startswith('const '):
             return self.constant(t[6:].strip())
-        if '::' in t and re.fullmatch(r'[A-Za-z_][\w:<>, ]*', t):
+        if '::' in t and (re.fullmatch(r'[A-Za-z_][\w:<>, ]*', t) or re.fullmatch(r'<.* as .*>::\w+', t)):
             return Opaque('item ' + t)          # function item / constructor passed as a value
         return self.place(t, p)
 
@@ -325,7 +332,10 @@ class Interp:
             return ('str', m.group(1))
         m = re.fullmatch(r"'(.*)'", c)
         if m:
-            return ('char', m.group(1))
+            ch = m.group(1)
+            if len(ch) == 1:
+                return z3.IntVal(ord(ch))        # chars are their code points
+            return ('char', ch)
         m = re.fullmatch(r'(-?[\d.]+(?:e-?\d+)?)f64', c.replace('_', ''))
         if m:
             return z3.FPVal(float(m.group(1)), z3.Float64())
@@ -499,6 +509,7 @@ class Interp:
             m = re.fullmatch(r'(\S.*?) = (.*) -> \[return: (bb\d+), unwind.*\];', line)
             if m and re.match(r'_\d+$|\(\*_\d+\)$', m.group(1)):
                 dst, call, nxt = m.groups()
+                raw_call = call
                 call = strip_generics(call)
                 k = split_callee(call)
                 if k is None or not call.endswith(')'):
@@ -506,7 +517,8 @@ class Interp:
                 callee = call[:k].strip()
                 args = [self.operand(a, p) for a in split_top(call[k + 1:-1])]
                 c = Call(callee, args, self._next())
-                val = self.call_model(c, self) if self.call_model else None
+                c.raw = raw_call
+                val = self.call_model(c, self, p) if self.call_model and self.call_model.__code__.co_argcount >= 3 else (self.call_model(c, self) if self.call_model else None)
                 p.calls.append(c)
                 p.env[dst] = c if val is None else val
                 c.result = p.env[dst]
@@ -521,9 +533,11 @@ class Interp:
             if m:
                 p.env[m.group(1)] = self.rvalue(m.group(2), p)
                 continue
-            m = re.fullmatch(r'\((.*)\) = (.*);', line) or re.fullmatch(r'(\(.*\)) = (.*);', line)
+            m = re.fullmatch(r'(\(.*\)) = (.*);', line)
             if m:
-                # store through a projection: modelled only when the base is a tuple we track
+                # store through a pointer/projection: delegated to the obligation's heap model, if any
+                if self.store_model is not None:
+                    self.store_model(m.group(1), self.rvalue(m.group(2), p), self, p)
                 continue
             if line.startswith(('StorageLive', 'StorageDead', 'nop', 'FakeRead', 'PlaceMention', 'Retag', 'AscribeUserType', 'Coverage', 'ConstEvalCounter', 'Deinit', 'set_discriminant')) \
                     or line.startswith('//') or line.startswith('_') and ' = ' not in line:
